@@ -2160,9 +2160,275 @@ def translate_synapse_classes(repo: str = REPO):
     return "\n".join(out), man
 
 
+
+# ------------------------------------------------------------------ special: the ten fold reducer classes
+# inferno/observe/reducers/{trace,general,stats}.py: per class the body of `fold` (which kernel, with which attributes
+# as which arguments), the decay expression (constructor AND dt setter: the two occurrences must translate to the same
+# term), `interpolate` (which interpolation, with which attribute), the fill value handed to FoldReducer.__init__;
+# inferno/observe/reducers/base.py: the statement structure of FoldReducer.forward / clear / peek / dump / view / push over
+# abstract record operations.  Reading: per ELEMENT; `self.<attr>` reads become parameters `self_<attr>` sorted by name
+# (leading underscores of name-mangled attributes dropped: self.__initial_value -> self_initial_value, self._count ->
+# self_count); casts `x.to(dtype=...)` are the identity on numbers; `partial(lambda o, c: c, c=cond)` is the constant
+# function of the condition.  Fail closed on any other statement shape or attribute.
+# NOT generated (stays hand-written in coq/C07/Reducer.v, tied by the correspondence): zipping the per-element fold over
+# a tensor, shape errors, the ring buffer itself (C01), RecordTensor.select (view), the dt setter's record resize, the
+# EventReducer's non-finite initial values inf / nan (the model's `option` lifting) and the string -> value mapping of
+# its `initial` argument, argument validation.
+RC_FILES = {"inferno/observe/reducers/trace.py": ["NearestTraceReducer", "CumulativeTraceReducer",
+                                                   "ScaledNearestTraceReducer", "ScaledCumulativeTraceReducer",
+                                                   "ConditionalNearestTraceReducer", "ConditionalCumulativeTraceReducer"],
+            "inferno/observe/reducers/general.py": ["EventReducer", "PassthroughReducer"],
+            "inferno/observe/reducers/stats.py": ["EMAReducer", "CAReducer"]}
+RC_ATTRS = {"decay": "T", "amplitude": "T", "target": "T", "tolerance": "optT", "scale": "T", "criterion": "funB",
+            "time_constant": "T", "dt": "T", "alpha": "T", "__initial_value": "T", "_count": "Z"}
+RC_COND = "partial(lambda o, c: c, c=cond)"
+RC_BASE = "inferno/observe/reducers/base.py"
+
+
+def _rc_pname(a):
+    return "self_" + a.lstrip("_")
+
+
+class _RCSelf(ast.NodeTransformer):
+    """self.X (read) -> Name self_X; casts to the storage data type dropped; the conditional match function named"""
+
+    def __init__(self, where, used):
+        self.where, self.used = where, used
+
+    def visit_Call(self, n):
+        if ast.unparse(n) == RC_COND:
+            return ast.Name(id="cond_matchfn", ctx=ast.Load())
+        if isinstance(n.func, ast.Attribute) and n.func.attr == "to" and not n.args and [k.arg for k in n.keywords] == ["dtype"]:
+            dt = ast.unparse(n.keywords[0].value)
+            if dt not in ("self.data.dtype", "state.dtype"):
+                raise TranslationError(f"{self.where}: cast to {dt} (expected the storage / state data type)")
+            return self.visit(n.func.value)
+        return self.generic_visit(n)
+
+    def visit_Attribute(self, n):
+        if isinstance(n.value, ast.Name) and n.value.id == "self":
+            if n.attr not in RC_ATTRS:
+                raise TranslationError(f"{self.where}: read of self.{n.attr} is outside the modelled attributes")
+            self.used.add(n.attr)
+            return ast.Name(id=_rc_pname(n.attr), ctx=ast.Load())
+        return self.generic_visit(n)
+
+    def visit_Name(self, n):
+        if n.id == "self":
+            raise TranslationError(f"{self.where}: bare use of self")
+        return n
+
+
+def _rc_sig(used):
+    return "".join(f" ({_rc_pname(a)} : {COQ_TYPE[RC_ATTRS[a]]})" for a in sorted(used, key=_rc_pname))
+
+
+def _rc_value(where, node, kfns, env):
+    """translate one expression / returning statement list reading self attributes; -> (text, used attributes)"""
+    used: set[str] = set()
+    tr = Translator(kfns)
+    full = {_rc_pname(a): t for a, t in RC_ATTRS.items()}
+    full.update(env)
+    if isinstance(node, list):
+        stmts = [_RCSelf(where, used).visit(ast.parse(ast.unparse(st)).body[0]) for st in node]
+        v = tr.block(stmts, full)
+    else:
+        v = tr.expr(_RCSelf(where, used).visit(ast.parse(ast.unparse(node)).body[0].value), full)
+    if tr.extras:
+        raise TranslationError(f"{where}: needs special functions")
+    if v[1] not in ("T", "lit", "Z", "B"):
+        raise TranslationError(f"{where}: does not produce one number per element ({v[1]})")
+    return tr.toT(v), used
+
+
+def _rc_args(f, expected, where):
+    a = f.args
+    if [x.arg for x in a.args] != expected or a.vararg or a.kwonlyargs:
+        raise TranslationError(f"{where}: expected parameters {expected}")
+
+
+def translate_reducer_classes(repo: str = REPO):
+    kfns: dict[str, Fn] = {}
+    for m in ("Trace", "Math", "Interpolation"):
+        translate_module(m, repo, kfns)
+    out = ["(* GENERATED by tools/translate.py from inferno/observe/reducers/{base,trace,general,stats}.py -- do not edit *)",
+           "From Coq Require Import ZArith Bool List.",
+           "From Inferno Require Import Base.Num Gen.Trace Gen.Math Gen.Interpolation.", ""]
+    man = []
+
+    def record(path, name, f):
+        man.append({"module": "ReducerClasses", "source": path, "function": name, "lines": [f.lineno, f.end_lineno],
+                    "sha256": hashlib.sha256(ast.dump(f).encode()).hexdigest()})
+
+    for path, classes in RC_FILES.items():
+        tree = ast.parse(open(os.path.join(repo, path)).read())
+        cdefs = {n.name: n for n in tree.body if isinstance(n, ast.ClassDef)}
+        for cn in classes:
+            if cn not in cdefs:
+                raise TranslationError(f"{path}: class {cn} not found")
+            if [ast.unparse(b) for b in cdefs[cn].bases] != ["FoldReducer"]:
+                raise TranslationError(f"{cn}: expected the single base class FoldReducer")
+            meths = _sc_methods(cdefs[cn])
+            allowed = {"__init__", "fold", "interpolate", "dt", "dt.setter"} | ({"clear"} if cn == "CAReducer" else set())
+            if set(meths) - allowed:
+                raise TranslationError(f"{cn}: unexpected methods {sorted(set(meths) - allowed)}")
+            for need in ("__init__", "fold", "interpolate"):
+                if need not in meths:
+                    raise TranslationError(f"{cn}.{need}: method not found")
+            out.append(f"(* ---------------------------------------------------------------- {cn} ({path}) *)")
+            init = meths["__init__"]
+            ibody = _nc_strip(init.body)
+            # ---------------- fill: FoldReducer.__init__(self, step_time, duration, inclusive, inplace, <fill>)
+            calls = [st.value for st in ibody if isinstance(st, ast.Expr) and isinstance(st.value, ast.Call)
+                     and ast.unparse(st.value.func) == "FoldReducer.__init__"]
+            if len(calls) != 1 or calls[0].keywords or \
+                    [ast.unparse(a) for a in calls[0].args[:5]] != ["self", "step_time", "duration", "inclusive", "inplace"] \
+                    or len(calls[0].args) != 6:
+                raise TranslationError(f"{cn}.__init__: expected FoldReducer.__init__(self, step_time, duration, inclusive, "
+                                       "inplace, <fill>)")
+            fill = calls[0].args[5]
+            if isinstance(fill, ast.Constant) and isinstance(fill.value, (int, float)) and not isinstance(fill.value, bool):
+                out.append(f"Definition {cn}_fill (N : Num) : T N :=\n  {Translator({}).toT((fill.value, 'lit'))}.\n")
+            elif isinstance(fill, ast.Name) and fill.id == "initial" and cn == "EventReducer":
+                if "self.__initial_value = initial" not in [ast.unparse(st) for st in ibody]:
+                    raise TranslationError(f"{cn}.__init__: expected self.__initial_value = initial (the fill value)")
+                out.append("(* the fill value and the value fold uses before the first event are the same local `initial` *)\n"
+                           f"Definition {cn}_fill (N : Num) (initial : T N) : T N :=\n  initial.\n"
+                           f"Definition {cn}_initial_value (N : Num) (initial : T N) : T N :=\n  initial.\n")
+            else:
+                raise TranslationError(f"{cn}.__init__: unsupported fill value {ast.unparse(fill)}")
+            record(path, f"{cn}.__init__", init)
+            # ---------------- decay: constructor and dt setter
+            dec = [st for st in ibody if isinstance(st, ast.Assign) and ast.unparse(st.targets[0]) == "self.decay"]
+            if dec or "dt.setter" in meths:
+                if len(dec) != 1 or "dt.setter" not in meths or "dt" not in meths:
+                    raise TranslationError(f"{cn}: decay must be assigned once in __init__ and again in the dt setter")
+                sb = _nc_strip(meths["dt.setter"].body)
+                if len(sb) != 2 or ast.unparse(sb[0]) != "FoldReducer.dt.fset(self, value)" \
+                        or not isinstance(sb[1], ast.Assign) or ast.unparse(sb[1].targets[0]) != "self.decay":
+                    raise TranslationError(f"{cn}.dt setter: expected FoldReducer.dt.fset(self, value); self.decay = <expression>")
+                gb = _nc_strip(meths["dt"].body)
+                if len(gb) != 1 or ast.unparse(gb[0]) != "return FoldReducer.dt.fget(self)":
+                    raise TranslationError(f"{cn}.dt getter: expected return FoldReducer.dt.fget(self)")
+                t1, u1 = _rc_value(f"{cn}.__init__ (decay)", dec[0].value, kfns, {})
+                t2, u2 = _rc_value(f"{cn}.dt setter (decay)", sb[1].value, kfns, {})
+                if t1 != t2 or u1 != u2:
+                    raise TranslationError(f"{cn}: the decay expressions of the constructor and of the dt setter differ: "
+                                           f"{ast.unparse(dec[0].value)} vs {ast.unparse(sb[1].value)}")
+                if not u1 <= {"dt", "time_constant"}:
+                    raise TranslationError(f"{cn}: decay reads {sorted(u1)}")
+                # the attributes the decay reads must be set from validated constructor arguments
+                if not any(isinstance(st, ast.Assign) and ast.unparse(st.targets[0]) == "self.time_constant"
+                           and ast.unparse(st.value) == "argtest.gt('time_constant', time_constant, 0, float)" for st in ibody):
+                    raise TranslationError(f"{cn}.__init__: expected self.time_constant = argtest.gt('time_constant', "
+                                           "time_constant, 0, float)")
+                out.append(f"Definition {cn}_decay (N : Num){_rc_sig(u1)} : T N :=\n  {t1}.\n")
+                record(path, f"{cn}.dt.setter", meths["dt.setter"])
+            # ---------------- fold
+            f = meths["fold"]
+            where = f"{cn}.fold"
+            cond = [x.arg for x in f.args.args] == ["self", "obs", "cond", "state"]
+            _rc_args(f, ["self", "obs", "cond", "state"] if cond else ["self", "obs", "state"], where)
+            body = _nc_strip(f.body)
+            pre = ""
+            env = {"obs": "T", "state": "optT"}
+            if cond:
+                env.update({"cond": "B", "cond_matchfn": "funB"})
+            if cn == "CAReducer":
+                if not body or ast.unparse(body[0]) != "self._count += 1":
+                    raise TranslationError(f"{where}: expected to start with self._count += 1")
+                body = body[1:]
+                out.append("(* fold starts with self._count += 1; the fold formula below reads the incremented value *)\n"
+                           f"Definition {cn}_fold_count (self_count : Z) : Z :=\n  (Z.add self_count (1)%Z).\n")
+            txt, used = _rc_value(where, body, kfns, env)
+            if cond:
+                if "cond_matchfn" not in txt:
+                    raise TranslationError(f"{where}: the condition is not used as the match function")
+                txt = f"(let cond_matchfn := (fun _ : T N => cond) in\n  {txt})"
+            sig = _rc_sig(used) + " (obs : T N)" + (" (cond : bool)" if cond else "") + " (state : option (T N))"
+            out.append(f"Definition {cn}_fold (N : Num){sig} : T N :=\n  {txt}.\n")
+            record(path, where, f)
+            # ---------------- interpolate
+            f = meths["interpolate"]
+            where = f"{cn}.interpolate"
+            _rc_args(f, ["self", "prev_data", "next_data", "sample_at", "step_time"], where)
+            txt, used = _rc_value(where, _nc_strip(f.body), kfns,
+                                  {"prev_data": "T", "next_data": "T", "sample_at": "T", "step_time": "T"})
+            out.append(f"Definition {cn}_interpolate (N : Num){_rc_sig(used)} (prev_data : T N) (next_data : T N) "
+                       f"(sample_at : T N) (step_time : T N) : T N :=\n  {txt}.\n")
+            record(path, where, f)
+            # ---------------- CAReducer.clear
+            if cn == "CAReducer":
+                cb = [ast.unparse(st) for st in _nc_strip(meths["clear"].body)]
+                if cb != ["self._count = 0", "FoldReducer.clear(self, keepshape=keepshape, **kwargs)"]:
+                    raise TranslationError(f"{cn}.clear: expected self._count = 0; FoldReducer.clear(self, keepshape=keepshape, **kwargs)")
+                out.append(f"(* clear zeroes the count, then clears as every fold reducer *)\n"
+                           f"Definition {cn}_clear_count : Z :=\n  (0)%Z.\n")
+                record(path, f"{cn}.clear", meths["clear"])
+    out.append(_rc_base(repo, record))
+    return "\n".join(out), man
+
+
+def _rc_base(repo, record):
+    """FoldReducer (base.py): the statement structure of forward / clear / peek / dump / view / push, over abstract record
+    operations (S = the record `data_`, X = an observation / folded state):  only the exact statement shapes below."""
+    tree = ast.parse(open(os.path.join(repo, RC_BASE)).read())
+    cd = [n for n in tree.body if isinstance(n, ast.ClassDef) and n.name == "FoldReducer"]
+    if len(cd) != 1:
+        raise TranslationError("FoldReducer not found")
+    meths = _sc_methods(cd[0])
+    U = lambda f: [ast.unparse(st) for st in _nc_strip(f.body)]   # noqa
+
+    def shape(name, expected):
+        if name not in meths:
+            raise TranslationError(f"FoldReducer.{name}: method not found")
+        got = U(meths[name])
+        if got != expected:
+            raise TranslationError(f"FoldReducer.{name}: statement structure changed: expected {expected}, found {got}")
+        record(RC_BASE, f"FoldReducer.{name}", meths[name])
+
+    # the bodies are compared statement by statement after ast normalisation (docstrings dropped): any edit of the
+    # decision structure, of an operation or of the order of operations fails closed
+    shape("forward", ["if not self._initial:\n    self.push(self.fold(*inputs, self.peek()))\nelse:\n"
+                      "    res = self.fold(*inputs, None)\n    if self.data_.ignored:\n"
+                      "        self.data_.initialize(res.shape, fill=self.__fill)\n    self.push(res)\n    self._initial = False"])
+    shape("clear", ["if keepshape:\n    self.data_.reset(self.__fill)\nelse:\n    self.data_.deinitialize(False)",
+                    "self._initial = True"])
+    shape("peek", ["if not self._initial:\n    return self.data_.peek()"])
+    shape("dump", ["if not self._initial:\n    self.data_.align(0)\n    return self.data_.value.flip(0)"])
+    shape("view", ["if not self._initial:\n    return self.data_.select(time, self.interpolate, tolerance=tolerance)"])
+    shape("push", ["self.data_.push(inputs, inplace=self.inplace)"])
+    ib = U(meths["__init__"])
+    if "self.register_extra('_initial', True)" not in ib or "self.__fill = fill" not in ib:
+        raise TranslationError("FoldReducer.__init__: expected register_extra('_initial', True) and self.__fill = fill")
+    record(RC_BASE, "FoldReducer.__init__", meths["__init__"])
+    return (
+        "(* ---------------------------------------------------------------- FoldReducer (inferno/observe/reducers/base.py) *)\n"
+        "(* statement structure over abstract record operations: S = the record data_, X = an observation / a folded state.\n"
+        "   Emitted only when the method bodies have exactly the shapes listed in tools/translate.py (_rc_base). *)\n"
+        "Definition FoldReducer_initial : bool :=\n  true.\n\n"
+        "(* forward: (record, _initial) after the call; fold is the class's fold with the inputs already supplied *)\n"
+        "Definition FoldReducer_forward {S X : Type} (fold : option X -> X) (peek : S -> option X) (push : X -> S -> S)\n"
+        "    (ignored : S -> bool) (initialize : X -> S -> S) (self_initial : bool) (data_ : S) : S * bool :=\n"
+        "  (if negb self_initial then (push (fold (peek data_)) data_, self_initial)\n"
+        "   else (let res := fold None in\n"
+        "         let data_ := (if ignored data_ then initialize res data_ else data_) in\n"
+        "         let data_ := push res data_ in\n"
+        "         (data_, false))).\n\n"
+        "Definition FoldReducer_clear {S : Type} (reset_fill : S -> S) (deinitialize : S -> S) (keepshape : bool) (data_ : S) : S * bool :=\n"
+        "  (let data_ := (if keepshape then reset_fill data_ else deinitialize data_) in\n"
+        "   (data_, true)).\n\n"
+        "Definition FoldReducer_peek {S X : Type} (peek : S -> option X) (self_initial : bool) (data_ : S) : option X :=\n"
+        "  (if negb self_initial then peek data_ else None).\n\n"
+        "Definition FoldReducer_dump {S Y : Type} (align0 : S -> S) (value_flip : S -> Y) (self_initial : bool) (data_ : S) : S * option Y :=\n"
+        "  (if negb self_initial then (let data_ := align0 data_ in (data_, Some (value_flip data_))) else (data_, None)).\n\n"
+        "Definition FoldReducer_view {S Y : Type} (select_interpolate : S -> Y) (self_initial : bool) (data_ : S) : option Y :=\n"
+        "  (if negb self_initial then Some (select_interpolate data_) else None).\n")
+
+
 SPECIAL = {"Conv": translate_conv_outsize, "SpikeMath": translate_spikemath,
            "Constraints": translate_constraints, "NeuronClasses": translate_neuron_classes,
-           "SynapseClasses": translate_synapse_classes}
+           "SynapseClasses": translate_synapse_classes, "ReducerClasses": translate_reducer_classes}
 
 
 def generate(outdir: str, modules: list[str] | None = None, repo: str = REPO):
